@@ -55,6 +55,10 @@ BackLine(p, w, ln) == IF w = 1 /\ ByteAt(p - w) = "nl" THEN ln - 1 ELSE ln
 RECURSIVE TrimCR(_, _)
 TrimCR(st, p) == IF p > st /\ ByteAt(p - 1) = "cr" THEN TrimCR(st, p - 1) ELSE p
 
+\* strings.TrimRight(all(), " \t\r"): the blanks between a command and the closing brace are layout
+RECURSIVE TrimBlank(_, _)
+TrimBlank(st, p) == IF p > st /\ ByteAt(p - 1) \in {"sp", "tab", "cr"} THEN TrimBlank(st, p - 1) ELSE p
+
 Tok(ty, s, e, ln) == [ty |-> ty, s |-> s, e |-> e, ln |-> ln, ml |-> 0]
 ErrTok(ml) == [ty |-> "ERROR", s |-> start, e |-> start, ln |-> sline, ml |-> ml]
 
@@ -148,8 +152,8 @@ Cmds == /\ fn = "Cmds" /\ Ready
                               EmitGo("COMMAND", pe, line, d.w, "WS", "Cmds")        \* backup; (drop a \r); emit; skipWS
              [] Pref(p1, <<"lb", "lb">>) -> Set("Cmds", "", start, p1 + 2, ln1, sline, d.w, toks)
              [] Pref(p1, <<"rb", "rb">>) -> Set("Cmds", "", start, p1 + 2, ln1, sline, d.w, toks)
-             [] d.r = "rb" -> LET pe0 == IF pos > start /\ ByteAt(pos - 1) = "sp" THEN pos - 1 ELSE pos
-                                  pe == IF Variant = "fixed" THEN TrimCR(start, pe0) ELSE pe0 IN
+             [] d.r = "rb" -> LET pe0 == IF pos > start /\ ByteAt(pos - 1) = "sp" THEN pos - 1 ELSE pos      \* pinned: exactly one space
+                                  pe == IF Variant = "fixed" THEN TrimBlank(start, pos) ELSE pe0 IN            \* fixed: every trailing blank and CR
                               IF pe > start
                               THEN Set("WS", "RBrace", pe, pe, line, line, d.w, Append(toks, Tok("COMMAND", start, pe, sline)))
                               ELSE Set("WS", "RBrace", start, pe, line, sline, d.w, toks)
